@@ -241,7 +241,7 @@ def check_text_form(a):
 
 def text_form_universe(L):
     """multi-part locations with either operator, every strand incl. none, and uncertain outer boundaries"""
-    from Bio.SeqFeature import AfterPosition, BeforePosition  # pylint: disable=import-outside-toplevel
+    from Bio.SeqFeature import AfterPosition, BeforePosition, ExactPosition, OneOfPosition, WithinPosition  # pylint: disable=import-outside-toplevel
     out = []
     for strand in (1, -1, None):
         for s1, e1, s2, e2 in itertools.combinations(range(L + 1), 4):
@@ -251,6 +251,15 @@ def text_form_universe(L):
         for s, e in itertools.combinations(range(L + 1), 2):
             out.append(F(BeforePosition(s), e, strand))
             out.append(F(s, AfterPosition(e), strand))
+        # the other two kinds of uncertain position a GenBank file can hold: "(8.10)..40" (somewhere within) and
+        # "one-of(8,11)..40", as Biopython's parser builds them (a start takes the lowest, an end the highest value)
+        for s, mid, e in itertools.combinations(range(L + 1), 3):
+            out.append(F(WithinPosition(s, left=s, right=mid), e, strand))
+            out.append(F(s, WithinPosition(e, left=mid, right=e), strand))
+            out.append(F(OneOfPosition(s, [ExactPosition(s), ExactPosition(mid)]), e, strand))
+            out.append(F(s, OneOfPosition(e, [ExactPosition(mid), ExactPosition(e)]), strand))
+        for s1, e1, s2, e2 in itertools.combinations(range(L + 1), 4):
+            out.append(C([F(s1, WithinPosition(e1, left=s1 + 1, right=e1), strand), F(OneOfPosition(s2, [ExactPosition(s2), ExactPosition(e2 - 1)]), e2, strand)]))
     return out
 
 
